@@ -46,9 +46,14 @@ pub fn typed_decoders(raw: &RawAttribute, tid: TransactionId) -> Result<u32, Vio
         ($t:ident) => {
             let r = g(concat!(stringify!($t), "::from_raw"), || match <$t>::from_raw(raw) {
                 Ok(v) => {
-                    let _ = format!("{} {:?}", v, v);
-                    let _ = v.length();
-                    let _ = v.get_type();
+                    // read-only operations on the decoded value belong to C01 only for values that
+                    // can occur in a message (a value over 65 535 bytes has no wire representation:
+                    // there only the decoder itself is the entry point under test)
+                    if raw.value.len() <= 65_535 {
+                        let _ = format!("{} {:?}", v, v);
+                        let _ = v.length();
+                        let _ = v.get_type();
+                    }
                     true
                 }
                 Err(e) => {
